@@ -1,0 +1,22 @@
+//go:build verif
+
+// Contracts for the verification harness in /verif (comment-only; no declarations).
+package finalizer
+
+//@ func Manager.SyncObject(m, client, obj) (res, err)
+//@   requires m != nil && obj != nil && client != nil
+//@   at ResourceClient.AddFinalizer(rc, o, name) [C10]: m.Enabled && !ContainsFinalizer(obj, m.Name) && obj.GetDeletionTimestamp() == nil && o == obj && name == m.Name
+//@   at ResourceClient.RemoveFinalizer(rc, o, name) [C10]: !m.Enabled && ContainsFinalizer(obj, m.Name) && o == obj && name == m.Name
+//@   ensures [C10] old(ContainsFinalizer(obj, m.Name) == m.Enabled) ==> res == obj && err == nil && !called(ResourceClient.AddFinalizer) && !called(ResourceClient.RemoveFinalizer)
+//@   ensures [C10] old(m.Enabled && !ContainsFinalizer(obj, m.Name) && obj.GetDeletionTimestamp() != nil) ==> res == obj && err == nil && !called(ResourceClient.AddFinalizer) && !called(ResourceClient.RemoveFinalizer)
+//@   ensures [C10] old(m.Enabled && !ContainsFinalizer(obj, m.Name) && obj.GetDeletionTimestamp() == nil) ==> called(ResourceClient.AddFinalizer)
+//@   ensures [C10] old(!m.Enabled && ContainsFinalizer(obj, m.Name)) ==> called(ResourceClient.RemoveFinalizer)
+
+//@ func Manager.ShouldFinalize(m, parent) (r)
+//@   requires m != nil && parent != nil
+//@   ensures [C10] r == (!ContainsFinalizer(parent, "foregroundDeletion") && !ContainsFinalizer(parent, "orphan") && ContainsFinalizer(parent, m.Name) && m.Enabled)
+
+//@ func hasGCFinalizer(obj) (r)
+//@   requires obj != nil
+//@   invariant loop 1 [C10]: forall i int :: 0 <= i && i <= rangeindex ==> finAt(obj, i) != "foregroundDeletion" && finAt(obj, i) != "orphan"
+//@   ensures [C10] r == (ContainsFinalizer(obj, "foregroundDeletion") || ContainsFinalizer(obj, "orphan"))
